@@ -54,6 +54,8 @@ func init() {
 		rules.AccumulatorPurity(p, r, "C08-acc")
 		// premise of two entries of the choice-site table (group representative in the diff merge): key completeness
 		rules.DiffMergeKey(p, r, "C08-key")
+		// a default carried from one element of a list to the next makes the result depend on the order of the list
+		rules.LoopCarriedDefaults(p, r, "C08-loop")
 		var sources []ordertaint.Source
 		if fd := p.Func(core.PkgConnlist, "ConnlistAnalyzer", "ConnectionsListToString"); fd != nil {
 			sources = append(sources, ordertaint.Source{Param: fd.Obj.Type().(*types.Signature).Params().At(0), Ord: ordertaint.Unord})
